@@ -286,7 +286,7 @@ CHECK = {
                  "c29_trace_safe", "c29_await_refuted_prefix"],
     "allowed_axioms": [],
     "extra_stage": stage,
-    "rule": ("randomized scenarios on the real ThreadGroup/ThreadPool with hooks armed: 0-2 permanent workers, linger "
+    "rule": ("randomized scenarios on the real ThreadGroup/ThreadPool with hooks armed: [+ 24 two-pool scenarios: two pools of one group in sequence and a second shut_down through the first pool's stale handle, judged on the outcome] 0-2 permanent workers, linger "
              "0/1 ms/50 ms, 1-4 submitters with 1-5 submit/submit_or_spawn calls each, task durations 0-3 ms, 0-30% "
              "panicking tasks, group shutdown at a random time concurrent with the submitters (1-2 callers), optional "
              "ThreadPool::shut_down calls (before, racing with or after the group's, also twice), 1-2 await_shutdown callers, random sleeps at 12 scheduling points incl. "
